@@ -66,7 +66,9 @@ DescChecked(c) == c.tr = "ip"
      "rej"    rejected: at least one status given and none of them 0
      "mixed"  contradictory duplicates (0 and non-zero): the statement does not say which counts;
               either verdict is allowed, but nothing may be invented
-     "unsent" BLE only: the call stopped at an earlier rejected characteristic
+     "unsent" BLE only: the call stopped at an earlier characteristic that was rejected or whose
+              request raised (link lost); what was accepted before that point stays accepted and
+              must still be announced to the listeners
    BLE: a characteristic without write permission is rejected by the library itself with
    CANT_WRITE_READ_ONLY and nothing is sent for it. *)
 BleFirstFail(c) ==
@@ -109,7 +111,8 @@ WriteOK(c, exc, R, ncount, nbad) ==
          IN  /\ ncount[k] <= 1                                                 \* never twice
              /\ cl \in {"rej", "unsent"} => ncount[k] = 0                      \* never presented as written
              /\ ~rd => ncount[k] = 0
-             /\ (cl = "acc" /\ rd /\ ~exc) => ncount[k] = 1                    \* exactly the accepted readable ones
+             /\ (cl = "acc" /\ rd) => ncount[k] = 1       \* exactly the accepted readable ones - also when the
+                                                          \* call then fails on a later characteristic (BLE)
              /\ ~exc =>
                   /\ cl = "rej" => Rk # {}                                      \* reported ...
                   /\ \A r \in Rk :
@@ -194,10 +197,11 @@ Min2(a, b) == IF a <= b THEN a ELSE b
 Groups(f) ==
     CASE f \in {"ipwvec", "iprvec", "coapw", "coapr"} -> ItemSeqs(1, MaxN)
       [] f \in {"ipwjunk", "iprjunk"} -> ItemSeqs(1, 2)
-      [] f = "blew" -> ItemSeqs(1, Min2(MaxN, 3))
+      [] f = "blew" -> ItemSeqs(1, MaxN)
       [] OTHER -> ItemSeqs(1, 1)
 AllRw(its) == [i \in 1..Len(its) |-> "rw"]
 PduStat == {0, 3, 6}        \* CoAP / BLE: 0 = success, 1..6 the defined PDU statuses
+LINK_LOST == 255            \* BLE: not a status - the link drops while this request is in flight, the call raises
 CasesOf(f, its) ==
     LET n == Len(its) k == its[1] IN
     CASE f = "ipwvec" ->     \* every vector of per-item statuses / absences, 204 and 207
@@ -233,7 +237,7 @@ CasesOf(f, its) ==
            { Case("coap", "read", its, <<"rw">>, TRUE, "pdu", FALSE, 0, << Entry("st", k, s) >>) : s \in 1..6 }
       [] OTHER ->            \* "blew"
            { Case("ble", "write", its, pm, TRUE, "pdu", FALSE, 0, [i \in 1..n |-> Entry("st", its[i], st[i])])
-               : pm \in PermsAll(n), st \in [1..n -> {0, 6}] }
+               : pm \in PermsAll(n), st \in [1..n -> {0, 6, LINK_LOST}] }
 
 VARIABLES c, pc, idx, result, pending, ncount, exc
 vars == <<c, pc, idx, result, pending, ncount, exc>>
